@@ -27,7 +27,8 @@ ASSUMPTIONS = [
     "rewrites preserve member order (a union's member order is observable and not part of 'same thing in different notation')",
     "top-level component $ref aliases are excluded (documented as unsupported)",
     "both renderings declare openapi 3.1.0 so only the notation differs",
-    "type-list + enum-with-null is generated only while the finding covering it is stale",
+    "nullability stated twice on an enum (nullable / type list *and* a null member) is not one of the listed notation pairs and is not generated",
+    "top-level array and union components are generated too; the reference-wrapper defect there (KF-C17-01) is recognised by the shape of the rewritten document plus its diagnostic text",
     "the URL source is a loopback http.server thread serving the scratch directory",
 ]
 
@@ -141,6 +142,7 @@ def render(ir: dict, bits) -> tuple[dict, Picker]:
 @st.composite
 def cases(draw, tier):
     prof = docs.profile(max_schemas=4, max_props=4, max_ops=2, max_depth=2, desc=True, security=False, allof=True, affix_names=True,
+                        component_unions=True,
                         null_in_enum=True)
     ir = draw(docs.doc_ir(prof))
     for op in ir["ops"]:
@@ -225,6 +227,49 @@ def server_url(path: str) -> str:
     return f"http://127.0.0.1:{port}/{rel}"
 
 
+def _wrapper_in_toplevel_nonobject(doc) -> bool:
+    """A single-reference allOf/oneOf/anyOf wrapper anywhere inside a top-level component that is itself an array or a union
+    (not a plain model; such components are built while models are still unprocessed), around a model that has an inline
+    class-generating descendant (object, enum, union of objects): the shape of KF-C17-01."""
+    schemas = (doc.get("components") or {}).get("schemas") or {}
+
+    def makes_class(q, depth=0) -> bool:
+        if not isinstance(q, dict) or "$ref" in q or depth > 6:
+            return False
+        if q.get("type") == "object" or "properties" in q or "enum" in q:
+            return True
+        if isinstance(q.get("items"), dict) and makes_class(q["items"], depth + 1):
+            return True
+        return any(makes_class(m, depth + 1) for key in ("oneOf", "anyOf", "allOf") for m in (q.get(key) or []) if isinstance(m, dict))
+
+    def inline_class_child(sch) -> bool:
+        if any(makes_class(p) for p in (sch.get("properties") or {}).values()):
+            return True
+        if isinstance(sch.get("additionalProperties"), dict) and makes_class(sch["additionalProperties"]):
+            return True
+        return any(isinstance(m, dict) and inline_class_child(m) for m in sch.get("allOf") or [])
+
+    def walk(x) -> bool:
+        if isinstance(x, dict):
+            for key in ("allOf", "oneOf", "anyOf"):
+                v = x.get(key)
+                if isinstance(v, list) and len(v) == 1 and isinstance(v[0], dict) and "$ref" in v[0] \
+                        and not any(x.get(k2) for k2 in ("allOf", "oneOf", "anyOf") if k2 != key):
+                    target = schemas.get(str(v[0]["$ref"]).rsplit("/", 1)[-1])
+                    if isinstance(target, dict) and inline_class_child(target):
+                        return True
+            return any(walk(v) for v in x.values())
+        if isinstance(x, list):
+            return any(walk(v) for v in x)
+        return False
+
+    for sch in schemas.values():
+        if isinstance(sch, dict) and (sch.get("type") == "array" or "oneOf" in sch or "anyOf" in sch) and "properties" not in sch:
+            if walk(sch):
+                return True
+    return False
+
+
 def _has_typelist_enum_null(doc) -> bool:
     found = False
 
@@ -281,7 +326,14 @@ def run(case, ctx):
             ctx.violation("equivalent.same_outcome", {**site, "how": "crash"}, repr(b.exc)[:200])
             return
         if b.errors:
-            ctx.violation("equivalent.same_diagnostics", {**site, "level": "error" if b.has_error_level else "warning"}, b.diag_text()[:300])
+            extra = {}
+            dt_ = b.diag_text()
+            sym = "duplicate_models" if "Attempted to generate duplicate models" in dt_ else \
+                ("invalid_property_in_union" if "Invalid property in union" in dt_ else None)
+            if sym and _wrapper_in_toplevel_nonobject(alt_doc):
+                extra = {"symptom": sym, "ref_wrapper_in_toplevel_array_or_union": True}
+            ctx.violation("equivalent.same_diagnostics", {**site, "level": "error" if b.has_error_level else "warning", **extra},
+                          b.diag_text()[:300])
             return
         snap_b = sut.snapshot(b.out)
         if snap_a != snap_b:
